@@ -36,6 +36,34 @@ class BuiltinMixin(CallMixin):
     # ------------------------------------------------------------------ python builtins
     def call_builtin(self, st: State, ctx: Ctx, name: str, args: list, kwargs: dict, line: int):
         a = [ops.lift(x) for x in args]
+        if name.startswith("nondet_"):
+            t = name[7:]
+            return [(st, smt.fresh("nd_" + t, sort_of_type(t)))]
+        if name == "assume":
+            st.assume(ops.truth(st, a[0]))
+            if not self.feasible(st):
+                return []
+            return [(st, None)]
+        if name == "require":
+            c = ops.truth(st, a[0])
+            self.oblige(st, c, "stub-pre", line, str(args[1]) if len(args) > 1 else "require")
+            st.assume(c)
+            return [(st, None)]
+        if name == "raise_any":
+            # one path per representative class below the given base (handlers only discriminate by named classes)
+            from .interp import EXC_REPRESENTATIVES
+            base = args[0]
+            excl = args[1:] if len(args) > 1 else ()
+            out = []
+            for pc_ in EXC_REPRESENTATIVES:
+                cv = PyClass(pc_)
+                if not self.is_subclass(cv, base):
+                    continue
+                if any(self.is_subclass(cv, x) for x in excl):
+                    continue
+                s2 = st.clone()
+                out.append((s2, Raise(self.make_exc(s2, cv, ()))))
+            return out
         if name == "len":
             v = self.need(st, ctx, a[0], line, "len-arg")
             if isinstance(v, Ref) and META[v.oid].kind == "object":
@@ -249,6 +277,9 @@ class BuiltinMixin(CallMixin):
                 return [(st, z3.If(c, z3.SubSeq(s, 0, smt.L(s) - smt.L(p)), s))]
             if meth == "join":
                 v = args[0]
+                if isinstance(v, Ref) and META[v.oid].kind == "generator":
+                    self.oblige(st, smt.L(s) == 0, "model", line, "join-on-empty-separator")
+                    return [(s2, r if isinstance(r, Raise) else smt.flat(r)) for s2, r in self.drain_producer(st, ctx, v, line)]
                 if is_z3(v) and v.sort() == smt.BytesSeq:
                     # only b"".join is modelled exactly
                     self.oblige(st, smt.L(s) == 0, "model", line, "join-on-empty-separator")
